@@ -201,7 +201,7 @@ func roundTrip(c rtCase) {
 	}
 
 	if n == 13 || n == 65535 {
-		sampleKind("roundtrip", 2, map[string]any{"roundtrip": c, "content_head": hexHead(msg, 16), "written_head": hexHead(rec.buf, 8), "write_calls": rec.calls, "writer_ok": wok, "second_frame_len": n2})
+		sampleKind("roundtrip", 1, map[string]any{"roundtrip": c, "content_head": hexHead(msg, 16), "written_head": hexHead(rec.buf, 8), "write_calls": rec.calls, "writer_ok": wok, "second_frame_len": n2})
 	}
 
 	// --- real DNS messages ---
